@@ -112,7 +112,7 @@ fn value_strategy(n_styles: u32) -> impl Strategy<Value = (XVal, Option<XFormula
 pub fn enc_strategy() -> impl Strategy<Value = XEnc> {
     let zip = (proptest::collection::vec(0u8..5, 0..4), proptest::collection::vec(any::<u8>(), 0..6), prop_oneof![3 => Just(0u8), 1 => 1u8..4], any::<bool>())
         .prop_map(|(methods, order, name_case, comment)| ZipKnobs { methods, order, name_case, comment });
-    (any::<[bool; 4]>(), 0u8..3, 0u8..3, any::<bool>(), any::<bool>(), any::<bool>(), zip, prop_oneof![2 => Just(0u8), 1 => 1u8..4]).prop_map(|(p, decl, rel_target, pretty, package_parts, bool_words, zip, sheet_ids)| XEnc {
+    (any::<[bool; 4]>(), 0u8..3, 0u8..3, any::<bool>(), any::<bool>(), any::<bool>(), zip, prop_oneof![2 => Just(0u8), 2 => 1u8..16]).prop_map(|(p, decl, rel_target, pretty, package_parts, bool_words, zip, sheet_ids)| XEnc {
         prefix_workbook: p[0],
         prefix_sheet: p[1],
         prefix_sst: p[2],
